@@ -52,7 +52,13 @@ impl Remote {
                 })
                 .collect::<Vec<_>>()
                 .join("\n");
-            let iurl = format!("https://index.crates.io/{}/{}/{name}", &name[0..2], &name[2..4]).to_ascii_lowercase();
+            let iurl = match name.len() {
+                1 => format!("https://index.crates.io/1/{name}"),
+                2 => format!("https://index.crates.io/2/{name}"),
+                3 => format!("https://index.crates.io/3/{}/{name}", &name[0..1]),
+                _ => format!("https://index.crates.io/{}/{}/{name}", &name[0..2], &name[2..4]),
+            }
+            .to_ascii_lowercase();
             m.insert(reqwest::Url::parse(&iurl).unwrap(), bytes::Bytes::from(index));
             // how the (non-)match of the metadata comes about varies with the registry content:
             // "description matches OR repository matches", each only when crates.io declares it
